@@ -16,9 +16,10 @@ unique temp names (FreshOuts / TokFresh, CfgOK.toks_inj).
 -/
 import OccaProofs.Lemmas.BuildFSProgress
 import OccaGen.BuildFSSites
+import OccaProofs.Lemmas.BuildFSExamples
 
 namespace Occa.BuildFS.C08
-open Occa Occa.BuildFS
+open Occa Occa.BuildFS Occa.BuildFS.Examples
 
 /-- Kill −9 at any step: after EVERY prefix of a trace that obeys the staging discipline, every
     final-named file is a complete, correct artefact (only temp-named debris is left behind).
@@ -106,66 +107,7 @@ theorem C08_cache_names : Gen.BuildFS.cacheNames.map (·.2) =
     ["build.json", "binary", ".raw_source", ".source.cpp", "string_source.cpp", "findCompilerVendor.cpp", "binary", "output",
      "build.log", "compilerSupportsOpenMP.cpp", "binary", "output"] := by decide
 
-/-! ### the hypotheses are satisfiable by a non-trivial value -/
-
-def exSpec : Spec where
-  valid := fun p bs => if p.base = "binary" ∨ p.base = "build.log" then bs == [9] else bs == [1]
-  compile := fun _ _ => [9]
-  recipe := fun p =>
-    if p.base = "binary" ∨ p.base = "build.log" then
-      some (if p.dir = "V" then "findCompilerVendor.cpp" else if p.dir = "O" then "compilerSupportsOpenMP.cpp" else "k.source.cpp")
-    else none
-
-theorem exSpec_coherent : exSpec.Coherent := by
-  intro src out s _ hr _ _
-  simp only [exSpec, Path.final] at hr ⊢
-  split at hr
-  · rename_i h; simp [h]
-  · cases hr
-
-def exToks (n : Nat) : String := String.ofList (List.replicate n 'a')
-
-theorem exToks_inj : ∀ i j, exToks i = exToks j → i = j := by
-  intro i j h
-  have : (exToks i).toList.length = (exToks j).toList.length := by rw [h]
-  simpa [exToks] using this
-
-def exCfg : Config :=
-  { openmp := true, fromString := true, silent := false, parseOk := true, kdir := "K", vdir := "V", odir := "O",
-    rawBase := "k.raw_source.cpp", cppBase := "k.source.cpp", str := [1], raw := [1], cpp := [1], json := [1],
-    vsrc := [1], vout := [1], osrc := [1], oout := [1], ooutNA := [1], toks := exToks }
-
-theorem exCfg_ok : CfgOK exSpec exCfg :=
-  { toks_inj := exToks_inj, v_str := by decide, v_raw := by decide, v_cpp := by decide, v_json := by decide,
-    v_vsrc := by decide, v_vout := by decide, v_osrc := by decide, v_oout := by decide, v_ooutNA := by decide,
-    r_kbin := by decide, r_vbin := by decide, r_vlog := by decide, r_obin := by decide }
-
-/-- a Good state with debris: an empty cache plus a half-written temp-named binary of a dead process -/
-def exFS : FS := FS.empty.setFile ⟨"K", some "deadbeef", "binary"⟩ (some ⟨[7], false⟩)
-
-theorem exFS_good : Good exSpec exFS := by
-  intro p f hp hf
-  simp only [exFS, FS.setFile, FS.empty] at hf
-  split at hf
-  · rename_i h; rw [h] at hp; cases hp
-  · cases hf
-
-theorem exFS_fresh : TokFresh exCfg exFS := by
-  intro p ⟨i, hi⟩
-  simp only [exFS, FS.setFile, FS.empty]
-  split
-  · rename_i h
-    rw [h] at hi
-    simp only [exCfg, Option.some.injEq] at hi
-    have : ("deadbeef" : String).toList = (exToks i).toList := by rw [hi]
-    simp only [exToks] at this
-    have h8 : i = 8 := by
-      have := congrArg List.length this
-      simpa using this.symm
-    subst h8
-    revert this
-    decide
-  · rfl
+/-! ### the hypotheses are satisfiable by a non-trivial value (objects in Lemmas/BuildFSExamples.lean) -/
 
 example : (run exSpec 1 (buildProg exCfg) exFS).1 = some true ∧
     Good exSpec (run exSpec 1 (buildProg exCfg) exFS).2.1 ∧ loadable exSpec exCfg (run exSpec 1 (buildProg exCfg) exFS).2.1 :=
